@@ -19,6 +19,15 @@ CLAIMED = {
         "Bounded universe (3 bases x {main, Template, Module}, all prefix spellings, underscores); titles are added with spaces; SQLite/TLC trusted.",
         "DESIGN.md §5 C10",
     ),
+    "C04": (
+        ["Transclusion", "Gen_Transclusion", "Trace_Transclusion"],
+        "denotational TLA+ reference of MediaWiki transclusion (Eval over an AST) evaluated by TLC on every (library, page) of a bounded universe; "
+        "each case replayed through the real expand(); random deeper cases recorded from the real code and validated by TLC",
+        "TLC enumerates every (library, page) pair of the bounded universe (47k quick / more thorough), checks laws of the reference, and emits the required output; "
+        "the real expand() must return exactly that string. Seeded random pairs (<=5 templates, depth <=4) are validated in the other direction by a TLC trace spec.",
+        "Reference = the rules in the property statement; alphabet of atoms concretised one-to-one; acyclic libraries only; parser functions limited to #if/#ifeq/#switch.",
+        "DESIGN.md §5 C04",
+    ),
 }
 NOT_YET = "check not built yet in this round (see DESIGN.md §10 build order); nothing is claimed for it"
 
